@@ -269,10 +269,6 @@ enum Rule {
     /// No gate of its own: never builds `success` itself except through the listed calls.
     /// `any` = alternatives (a dispatcher), otherwise every call is on every success path.
     Calls { calls: &'static [(&'static str, &'static str)], any: bool, forbid: &'static [&'static str] },
-    /// Like `Calls`, but the function is also recognised in its *ungated* shape (`ungated` = the
-    /// whitespace-free snippets of that shape): the row is then emitted without gate and without
-    /// calls, and the Lean table theorem about this row is the one that says so.
-    CallsOrUngated { calls: &'static [(&'static str, &'static str)], any: bool, ungated: &'static [&'static str] },
 }
 
 struct Surface {
@@ -415,13 +411,10 @@ fn surfaces() -> Vec<Surface> {
         },
         Surface {
             sid: "token_auth_ldap", file: SERVER, func: "IdmServerAuthTransaction::token_auth_ldap", entry: true,
-            rule: CallsOrUngated { calls: &[
+            rule: Calls { calls: &[
                     ("Token::UserAuthToken(uat)=>{self.process_uat_to_identity(&uat,ct,Source::Internal)?;", "process_uat_to_identity"),
                     ("Token::ApiToken(apit,entry)=>{self.process_apit_to_identity(&apit,Source::Internal,entry.clone(),ct)?;", "process_apit_to_identity"),
-                ], any: true, ungated: &[
-                    "matchself.validate_and_parse_token_to_identity_token(&lae.token,ct)?{Token::UserAuthToken(uat)=>{letspn=uat.spn.clone();Ok(Some(LdapBoundToken{",
-                    "Token::ApiToken(apit,entry)=>{letspn=entry.get_ava_single_proto_string(Attribute::Spn).ok_or_else(||OperationError::MissingAttribute(Attribute::Spn))?;Ok(Some(LdapBoundToken{",
-                ] },
+                ], any: true, forbid: &[] },
             what: "LDAP bind with a login token or api token as the password",
         },
         // ---- credential release
@@ -779,21 +772,6 @@ fn generate(repo: &str, out: &str) -> Result<String, String> {
             Rule::Field { field, expr } => {
                 check_field(s, &f, field, expr)?;
                 (Some(GateKind::Account), "stored", vec![], false)
-            }
-            Rule::CallsOrUngated { calls, any, ungated } => {
-                let body = nsp(&f.block);
-                if ungated.iter().all(|u| body.contains(u)) && calls.iter().all(|(t, _)| !body.contains(t)) {
-                    (None, "stored", vec![], *any)
-                } else {
-                    check_calls(s, &f, calls, &[])?;
-                    let mut cs: Vec<&str> = vec![];
-                    for (_, c) in calls.iter() {
-                        if !cs.contains(c) {
-                            cs.push(c);
-                        }
-                    }
-                    (None, "stored", cs, *any)
-                }
             }
             Rule::Calls { calls, any, forbid } => {
                 check_calls(s, &f, calls, forbid)?;
